@@ -37,7 +37,7 @@ theorem val_stepTxn_hold {s k} (h : sp.getDef i = .hold s k) (hr : Resolved sp e
       | none => sp.val i := by
   have hb : (sp.getDef i).init? = some k := by rw [h]; rfl
   have hb' : ((stepTxn sp ev).getDef i).init? = some k := by simpa using hb
-  rw [val_base hb', val_base hb, stepTxn_stored_cell (by rw [h]; rfl), hold_fires h hr]
+  rw [val_base hb', val_base hb, stepTxn_stored_cell (by rw [h]; rfl) (by rw [h]; rfl), hold_fires h hr]
   cases fire (fireTable sp ev) s <;> simp
 
 theorem hold_updated {s k v} (h : sp.getDef i = .hold s k) (hr : Resolved sp ev i)
@@ -76,7 +76,7 @@ theorem val_stepTxn_csink {k} (h : sp.getDef i = .csink k) :
     have := (csink_resolved (ev := ev) h).eqn
     rw [fireOf_csink _ _ _ _ h] at this
     simpa using this.symm
-  rw [val_base hb', val_base hb, stepTxn_stored_cell (by rw [h]; rfl), hf]
+  rw [val_base hb', val_base hb, stepTxn_stored_cell (by rw [h]; rfl) (by rw [h]; rfl), hf]
   cases ev.get i <;> simp
 
 set_option maxRecDepth 8192 in
@@ -99,7 +99,7 @@ theorem val_stepTxn_accum {s k op} (h : sp.getDef i = .accum s k op) (hr : Resol
       | _, _ => sp.val i := by
   have hb : (sp.getDef i).init? = some k := by rw [h]; rfl
   have hb' : ((stepTxn sp ev).getDef i).init? = some k := by simpa using hb
-  rw [val_base hb', stepTxn_stored_cell (by rw [h]; rfl), accum_fires h hr, val_base hb]
+  rw [val_base hb', stepTxn_stored_cell (by rw [h]; rfl) (by rw [h]; rfl), accum_fires h hr, val_base hb]
   cases fire (fireTable sp ev) s <;> simp
 
 /-- an accumulator always has a value -/
